@@ -302,23 +302,32 @@ class Heap:
             base = z3.Array("H." + name, I, sort)
             self.wf(name, base, sort, self.nref0)
             lay = Lay("base", arr=base)
-            for eid, nentry, mods, nref_after in self.epochs:
+            for eid, nentry, mods, nref_after, only in self.epochs:
                 new = z3.Array(f"H.{name}@{eid}", I, sort)
                 self.wf(name, new, sort, nref_after)
-                lay = Lay("havoc", below=lay, nentry=nentry, mods=mods, new=new)
+                lay = Lay("havoc", below=lay, nentry=nentry, mods=self.eff_mods(name, mods, only), new=new)
             self.m[name] = lay
         return self.m[name]
+
+    @staticmethod
+    def eff_mods(name, mods, only):
+        """field-granular frames: for a field array f.<field>.*, an object whose `only` list does not name the field is not modified"""
+        if not only or not name.startswith("f."):
+            return mods
+        field = name.split(".")[1]
+        drop = [m for m, allowed in only if field not in allowed]
+        return [m for m in mods if not any(z3.eq(m, d) for d in drop)]
 
     def store(self, name, sort, ref, val):
         self.m[name] = Lay("store", below=self.get(name, sort), ref=ref, val=val)
 
-    def havoc(self, nentry, mods, nref_after=None):
+    def havoc(self, nentry, mods, nref_after=None, only=None):
         eid = next(Heap._eid)
-        self.epochs.append((eid, nentry, mods, nref_after))
+        self.epochs.append((eid, nentry, mods, nref_after, only or []))
         for name in list(self.m):
             new = z3.Array(f"H.{name}@{eid}", I, self.sorts[name])
             self.wf(name, new, self.sorts[name], nref_after)
-            self.m[name] = Lay("havoc", below=self.m[name], nentry=nentry, mods=mods, new=new)
+            self.m[name] = Lay("havoc", below=self.m[name], nentry=nentry, mods=self.eff_mods(name, mods, only or []), new=new)
         return eid
 
 
